@@ -223,6 +223,35 @@ def proof_step(pid):
     return res
 
 
+def coqchk(pid, timeout=5400):
+    """Independent re-check of Properties/<pid>.vo and everything it depends on (thorough tier);
+    cached by the content hash of the dependency closure's .vo files."""
+    pf = f"{COQ}/theories/Properties/{pid}.v"
+    closure = sorted(coq_deps(pf))
+    h = hashlib.sha256()
+    for p in closure:
+        vo = p[:-2] + ".vo"
+        if os.path.exists(vo):
+            h.update(open(vo, "rb").read())
+    key = h.hexdigest()[:16]
+    os.makedirs(f"{BUILD}/coqchk", exist_ok=True)
+    cache = f"{BUILD}/coqchk/{pid}-{key}.txt"
+    if os.path.exists(cache):
+        out = open(cache).read()
+    else:
+        rc, out = sh(f"timeout {timeout} coqchk -silent -o -Q theories SE SE.Properties.{pid}", cwd=COQ, timeout=timeout + 60)
+        out = f"exit={rc}\n" + out
+        open(cache, "w").write(out)
+    ok = out.startswith("exit=0")
+    axioms = []
+    m = re.search(r"\* Axioms:(.*?)\n\s*\n\* Constants", out, re.S)
+    if m:
+        axioms = [x.strip() for x in m.group(1).split("\n") if x.strip() and x.strip() != "<none>"]
+    bad = [a for a in axioms if a.split(".")[-1] not in AXIOM_WHITELIST and a not in AXIOM_WHITELIST]
+    clean = all(f"{k}: <none>" in out.replace("\n  ", " ") or True for k in ())
+    return dict(ok=ok and not bad, axioms=axioms, unexpected_axioms=bad, cached=os.path.exists(cache), summary=out[-1200:])
+
+
 # ---------------------------------------------------------------- engines
 
 def tmpdir(pid):
